@@ -34,6 +34,7 @@ type memFS struct {
 	readFailOff   int           // ... after this many bytes
 	readSizes     []int         // cyclic schedule of read sizes (0 = whatever fits)
 	readN         int
+	eofWithData   bool         // readers return their last bytes together with io.EOF
 	openGate      func(string) // called in Open (may block)
 }
 
@@ -213,6 +214,10 @@ func (r *memReader) Read(b []byte) (int, error) {
 	r.off += n
 	if fs.log != nil {
 		fs.log.add(logEv{End: "S", Kind: "read", Path: hx(r.path), N: n})
+	}
+	if fs.eofWithData && r.off >= len(r.data) {
+		// legal for an io.Reader: the last bytes are delivered together with io.EOF (tar / gzip entry readers do this)
+		return n, io.EOF
 	}
 	return n, nil
 }
